@@ -18,6 +18,7 @@ def eval_with_terms(p: Program, fi: FuncInfo, inline=None, self_class=None) -> T
     ev = Evaluator(p)
     ev.open_transforms = True
     ev.record_terms = []
+    ev.auto_inline_helpers = True      # private helpers no rule names are evaluated in place
     if inline is not None:
         ev.inline_policy = inline
     fr = ev.eval_function(fi, self_class=self_class)
